@@ -381,9 +381,37 @@ def partial_specs() -> list[dict]:
     return out
 
 
+def fidelity_specs() -> list[dict]:
+    """A different objective per level (cheap landscape for the root, the accurate one further down - what the level
+    structure of HMS is for), with and without the memoising FunctionProblem(use_cache=True)."""
+    out = []
+    n = 0
+    rows = [(["sphere", "multi"], [{"engine": "SEA", "pop": 8, "gens": 1}, {"engine": "DE", "pop": 5, "gens": 1}]),
+            (["multi", "funnels"], [{"engine": "DE", "pop": 8, "gens": 1}, {"engine": "SEA", "pop": 5, "gens": 2}]),
+            (["sphere", "funnels"], [{"engine": "SHADE", "pop": 8, "gens": 1, "mem": 2}, {"engine": "SHADE", "pop": 6, "gens": 1, "mem": 2}]),
+            (["linear", "multi", "funnels"], [{"engine": "SEA", "pop": 8, "gens": 1}, {"engine": "DE", "pop": 5, "gens": 1}, {"engine": "CMA", "gens": 2}]),
+            (["plateau", "sphere", "multi"], [{"engine": "LHS", "pop": 10}, {"engine": "SEA", "pop": 5, "gens": 1}, {"engine": "LOCAL", "maxiter": 3}])]
+    for fns, levels in rows:
+        for cache in (False, True):
+            for maximize in (False, True):
+                n += 1
+                lv = [dict(l) for l in levels]
+                for l in lv[1:]:
+                    l.setdefault("lsc", {"kind": "MetaepochLimit", "n": 3})
+                out.append({"name": f"fid{n}", "seed": 1300 + n, "dim": 2, "box": ["sym", "unit", "asym"][n % 3], "fn": fns[0], "fns": list(fns),
+                            "maximize": maximize, "use_cache": cache, "levels": lv, "hibernation": n % 4 == 0,
+                            "gsc": {"kind": "MetaepochLimit", "n": 5} if n % 2 else {"kind": "WeightedEvalLimit", "n": 90, "w": "equal"},
+                            "sprout": {"kind": "simple", "far": 0.03, "limit": 2} if n % 3 else {"kind": "nbc", "gen": 1.0, "trunc": 1.0, "fil": 0.5, "limit": 2},
+                            "reports": n % 5 == 0, "dump_at": (2 if n % 6 == 1 else None)})
+    for sp in out:
+        if sp["dump_at"] is None:
+            sp.pop("dump_at")
+    return out
+
+
 def gen_specs(seed: int, n_random: int, tier: str = "quick") -> list[dict]:
     r = random.Random(seed)
-    specs = repo_test_specs() + sweep_specs(tier) + lifecycle_specs() + engine_specs() + init_specs() + manual_specs() + penalty_specs() + tiny_specs() + partial_specs()
+    specs = repo_test_specs() + sweep_specs(tier) + lifecycle_specs() + engine_specs() + init_specs() + manual_specs() + penalty_specs() + tiny_specs() + partial_specs() + fidelity_specs()
     for i in range(n_random):
         specs.append(random_spec(r, i))
     return specs
